@@ -4,3 +4,5 @@ open GoMail.Props.C13
 #print axioms dialAndSend_private_connection
 #print axioms cmd_is_one_critical_section
 #print axioms sends_never_interleave
+#print axioms send_path_stays_on_its_connection
+#print axioms send_path_inventory
